@@ -971,7 +971,9 @@ impl WorldB {
                         self.payloads[pi].first_surfaced_in = Some(ep);
                     }
                     let q = &self.payloads[pi];
-                    if q.slot != slot || q.tid != self.slots[slot].tid {
+                    // (a holder of the session's own token that opened the session from somebody else's address — only an
+                    // adversary-owned token is used that way — opens that session's payloads wherever they reach it: same keys)
+                    if q.tid != self.slots[slot].tid || (q.slot != slot && !self.tokens[q.tid].adv_owned) {
                         obs.violate("C04", "payload-attributed-to-wrong-client", "client", format!("generated for slot {} surfaced at {}", q.slot, slot));
                     }
                     if q.surfaced > 1 {
